@@ -601,7 +601,6 @@ func TestVerifC19Numa(t *testing.T) {
 				if r.Chance(1, 4) {
 					kind = 1 + r.Intn(2)
 				}
-				h.Op("numa bind %d %d %d %d %s", a.uid, kind, a.excl, len(a.cpus), c19Join(vIntsI(a.cpus), strconv.Itoa(len(a.numa)), c19NumaTok(a.numa)))
 				ok := true
 				var resv *schedulingv1alpha1.Reservation
 				if kind != 0 {
@@ -661,6 +660,165 @@ func TestVerifC19Numa(t *testing.T) {
 						}
 					}
 				}
+				// ---- retry history (ext5): an EARLIER scheduling attempt of this very object got as far as PreBind (the
+				// annotation was written and patched), Bind failed, the cycle was unreserved; the object re-enters the
+				// scheduler ALREADY annotated and the next cycle allocates elsewhere (other CPUs and / or other NUMA
+				// amounts; with the SAME CPU set - in particular none at all: a shared-pool pod placed by a NUMA topology
+				// policy - only the NUMA records differ).  PreBind must write the CURRENT allocation whatever the object
+				// carries (theorem prebind_writes_current_allocation).
+				var prevAttempt *c19Alloc
+				nTries := 0
+				if r.Chance(1, 3) {
+					nTries = 1
+					if r.Chance(1, 4) {
+						nTries = 2
+					}
+				}
+				for try := 0; try < nTries; try++ {
+					a1 := &c19Alloc{uid: a.uid, excl: a.excl}
+					variant := r.Intn(4) // 0 same CPU set, other NUMA records; 1 other CPU set, same NUMA records; 2, 3 both differ
+					otherCPUs := func() []int {
+						var out []int
+						for _, c := range free {
+							if r.Chance(1, 3) {
+								out = append(out, c)
+							}
+						}
+						if vIntsI(out) == vIntsI(a.cpus) {
+							if len(out) > 0 {
+								out = out[1:]
+							} else if len(free) > 0 {
+								out = []int{free[r.Intn(len(free))]}
+							}
+						}
+						return out
+					}
+					otherNuma := func() []c19Numa {
+						var out []c19Numa
+						for i, k := 0, r.Range(0, 2); i < k; i++ {
+							out = append(out, c19Numa{node: r.Intn(topo.NumNodes), cpu: int64(r.Range(1, 8)) * 1000, mem: int64(r.Range(0, 64)) << 20})
+						}
+						if len(out) == 2 && out[0].node == out[1].node {
+							out = out[:1]
+						}
+						if c19NumaTok(out) == c19NumaTok(a.numa) {
+							if len(out) > 0 {
+								out[0].cpu += 1000
+							} else {
+								out = []c19Numa{{node: r.Intn(topo.NumNodes), cpu: 1000}}
+							}
+						}
+						return out
+					}
+					switch variant {
+					case 0:
+						a1.cpus, a1.numa = append([]int(nil), a.cpus...), otherNuma()
+					case 1:
+						a1.cpus, a1.numa = otherCPUs(), append([]c19Numa(nil), a.numa...)
+					default:
+						a1.cpus, a1.numa = otherCPUs(), otherNuma()
+					}
+					sort.Ints(a1.cpus)
+					if vIntsI(a1.cpus) == vIntsI(a.cpus) {
+						h.Tag("retry:same-cpuset")
+						if len(a.cpus) == 0 {
+							h.Tag("retry:no-cpuset-other-numa")
+						}
+					} else {
+						h.Tag("retry:other-cpuset")
+					}
+					for _, c := range a1.cpus {
+						for _, o := range objs {
+							if o.alloc != nil && !o.term && o.alloc.excl != a1.excl {
+								for _, c2 := range o.alloc.cpus {
+									if c2 == c {
+										mixedExclShare = true
+										mixedCPUs[c] = true
+									}
+								}
+							}
+						}
+					}
+					pa1 := &PodAllocation{UID: pod.UID, Namespace: pod.Namespace, Name: pod.Name, CPUSet: cpuset.NewCPUSet(a1.cpus...)}
+					st1 := &preFilterState{allocation: pa1}
+					if len(a1.cpus) > 0 {
+						st1.requestCPUBind = true
+						st1.preferredCPUBindPolicy = schedulingconfig.CPUBindPolicyFullPCPUs
+						st1.preferredCPUExclusivePolicy = c19ExclNames[a1.excl]
+						st1.numCPUsNeeded = len(a1.cpus)
+						pa1.CPUExclusivePolicy = st1.preferredCPUExclusivePolicy
+					}
+					for _, x := range a1.numa {
+						pa1.NUMANodeResources = append(pa1.NUMANodeResources, NUMANodeResource{Node: x.node, Resources: c19RL(x, r)})
+					}
+					cs1 := framework.NewCycleState()
+					cs1.Write(stateKey, st1)
+					h.Op("numa try %d %d %d %d %s", a1.uid, kind, a1.excl, len(a1.cpus), c19Join(vIntsI(a1.cpus), strconv.Itoa(len(a1.numa)), c19NumaTok(a1.numa)))
+					ok1 := true
+					if h.Guard(func() {
+						target := pod
+						if resv != nil {
+							target = reservationutil.NewReservePod(resv)
+						}
+						if st := plg.Reserve(context.TODO(), cs1, target, c19NodeName); !st.IsSuccess() {
+							ok1 = false
+						}
+						if resv != nil {
+							if st := plg.PreBindReservation(context.TODO(), cs1, resv, c19NodeName); !st.IsSuccess() {
+								ok1 = false
+							}
+						} else if st := plg.PreBind(context.TODO(), cs1, pod, c19NodeName); !st.IsSuccess() {
+							ok1 = false
+						}
+					}) || !ok1 {
+						h.Obs("bind-failed")
+						h.Fail("C19:numa-persist-failed", "Reserve/PreBind failed for the first attempt %+v", *a1)
+					}
+					annots1 := pod.Annotations
+					if resv != nil {
+						annots1 = resv.Annotations
+					}
+					if rs1, e1 := extension.GetResourceStatus(annots1); e1 != nil || rs1 == nil {
+						h.Obs("annot ")
+						h.Fail("C19:numa-codec-roundtrip", "resource status of pod %d unreadable after the first attempt: %v", a1.uid, e1)
+					} else {
+						bs := make([]int, len(rs1.CPUSet))
+						for i := range bs {
+							bs[i] = int(rs1.CPUSet[i])
+						}
+						h.Obs("annot %s", vIntsI(bs))
+						if d := c19StatusDiff(rs1, a1); d != "" {
+							if prevAttempt != nil && c19StatusDiff(rs1, prevAttempt) == "" {
+								h.Fail("C19:numa-prebind-kept-stale-annotation", "object %d reached PreBind carrying the resource-status of an earlier attempt %+v; this attempt allocated %+v but the annotation still reads %q", a1.uid, *prevAttempt, *a1, annots1[extension.AnnotationResourceStatus])
+							} else {
+								h.Fail("C19:numa-codec-roundtrip", "pod %d, failed attempt: %s", a1.uid, d)
+							}
+						}
+					}
+					dumpLive()
+					if resv == nil && r.Chance(1, 3) {
+						// the patched, still unbound pod reaches the live scheduler's own informer: not assigned, ignored
+						objs[a.uid] = &c19Obj{pod: pod.DeepCopy()}
+						deliverX(liveH, 0, 0, a.uid)
+						delete(objs, a.uid)
+						dumpLive()
+					}
+					// Bind fails: the cycle is unreserved; the object keeps the annotation
+					h.Op("numa unres %d", a1.uid)
+					if h.Guard(func() {
+						target := pod
+						if resv != nil {
+							target = reservationutil.NewReservePod(resv)
+						}
+						plg.Unreserve(context.TODO(), cs1, target, c19NodeName)
+					}) {
+						h.Obs("panic")
+					}
+					dumpLive()
+					prevAttempt = a1
+					h.Tag(fmt.Sprintf("retry:attempts=%d", try+1))
+				}
+				h.Op("numa bind %d %d %d %d %s", a.uid, kind, a.excl, len(a.cpus), c19Join(vIntsI(a.cpus), strconv.Itoa(len(a.numa)), c19NumaTok(a.numa)))
 				if h.Guard(func() {
 					target := pod
 					if resv != nil {
@@ -716,7 +874,11 @@ func TestVerifC19Numa(t *testing.T) {
 							}
 						}
 					}
-					if !same {
+					if !same && prevAttempt != nil && rs != nil && c19StatusDiff(rs, prevAttempt) == "" {
+						// the object reached PreBind annotated by an earlier, unreserved attempt and still carries THAT allocation
+						h.Fail("C19:numa-prebind-kept-stale-annotation", "object %d reached PreBind carrying the resource-status of an earlier attempt (cpus=%v numa=%v) that failed to bind and was unreserved; the cycle that bound it allocated cpus=%v numa=%v (live ledger) but the persisted annotation still reads %q",
+							a.uid, prevAttempt.cpus, prevAttempt.numa, a.cpus, a.numa, annots[extension.AnnotationResourceStatus])
+					} else if !same {
 						h.Fail("C19:numa-codec-roundtrip", "pod %d: allocated cpus=%v numa=%v, read back cpuset=%q numa=%v err=%v",
 							a.uid, a.cpus, a.numa, rs.CPUSet, rs.NUMANodeResources, perr)
 					}
@@ -1095,7 +1257,28 @@ func TestVerifC19Numa(t *testing.T) {
 		}
 		h.End()
 	}
-	h.Close("history of bind (real Reserve+PreBind on a pod, or Reserve(NewReservePod)+PreBindReservation on a Reservation with its resource spec on the template or on itself) / delete / terminate / same-allocation update / duplicate add / hand-made objects on a 1-16 CPU topology (maxRef 1-3, CPU reuse as for reservation owners, NUMA amounts incl. zero and absent keys), cut anywhere, then two shuffled replays with duplicates into fresh caches. Rebuild shapes per surviving bound object (1/5 each, else plain add): add(unbound,annotated) then update(unbound->bound, same annotations); add before the fresh manager knows the node topology, topology arrives, no-change resync update. Event shapes: every delete goes to the registered OnDelete entry point (pod handler; FilteringResourceEventHandler+ReservationToPodEventHandler for Reservations), 2/5 of the pod AND Reservation deletes as cache.DeletedFinalStateUnknown{Key,Obj} by value (the IsObjValidActiveReservation filter must unwrap the tombstone before the adapter's type switch, else the Reservation's CPUs stay taken in the live ledger); 1/12 of the steps and 1/8 of the replays add a degenerate delete (tombstone with a foreign-type / nil / typed-nil Obj, bare foreign object) that must change nothing. Hypothesis coverage: hyp:excl-agree / hyp:excl-disagree = all surviving holders of every held CPU carry the same exclusive policy; where they do, the rebuilt marker must be that policy. Non-trivial = >= 2 surviving allocations")
+	h.Close("history of bind (real Reserve+PreBind on a pod, or Reserve(NewReservePod)+PreBindReservation on a Reservation with its resource spec on the template or on itself) / delete / terminate / same-allocation update / duplicate add / hand-made objects on a 1-16 CPU topology (maxRef 1-3, CPU reuse as for reservation owners, NUMA amounts incl. zero and absent keys), cut anywhere, then two shuffled replays with duplicates into fresh caches. Retry histories (1/3 of the binds, ext5): before the cycle that binds, 1-2 earlier cycles of the SAME object run Reserve + PreBind (annotation written on the pod / Reservation object), fail to bind and are unreserved (numa try / numa unres); each allocates something else (same CPU set incl. none at all with other NUMA records, other CPU set with the same records, both different), so the object reaches PreBind already annotated and must end up carrying the allocation of the LAST cycle. Rebuild shapes per surviving bound object (1/5 each, else plain add): add(unbound,annotated) then update(unbound->bound, same annotations); add before the fresh manager knows the node topology, topology arrives, no-change resync update. Event shapes: every delete goes to the registered OnDelete entry point (pod handler; FilteringResourceEventHandler+ReservationToPodEventHandler for Reservations), 2/5 of the pod AND Reservation deletes as cache.DeletedFinalStateUnknown{Key,Obj} by value (the IsObjValidActiveReservation filter must unwrap the tombstone before the adapter's type switch, else the Reservation's CPUs stay taken in the live ledger); 1/12 of the steps and 1/8 of the replays add a degenerate delete (tombstone with a foreign-type / nil / typed-nil Obj, bare foreign object) that must change nothing. Hypothesis coverage: hyp:excl-agree / hyp:excl-disagree = all surviving holders of every held CPU carry the same exclusive policy; where they do, the rebuilt marker must be that policy. Non-trivial = >= 2 surviving allocations")
+}
+
+// c19StatusDiff: "" when the decoded resource status is exactly allocation a (CPU set, NUMA records in order).
+func c19StatusDiff(rs *extension.ResourceStatus, a *c19Alloc) string {
+	back, perr := cpuset.Parse(rs.CPUSet)
+	if perr != nil {
+		return fmt.Sprintf("cpuset %q unparsable", rs.CPUSet)
+	}
+	if vIntsI(back.ToSlice()) != vIntsI(a.cpus) {
+		return fmt.Sprintf("allocated cpus=%v, read back %q", a.cpus, rs.CPUSet)
+	}
+	if len(rs.NUMANodeResources) != len(a.numa) {
+		return fmt.Sprintf("allocated numa=%v, read back %v", a.numa, rs.NUMANodeResources)
+	}
+	for i, nr := range rs.NUMANodeResources {
+		c, m := c19RLVals(nr.Resources)
+		if int(nr.Node) != a.numa[i].node || c != a.numa[i].cpu || m != a.numa[i].mem {
+			return fmt.Sprintf("allocated numa=%v, read back %v", a.numa, rs.NUMANodeResources)
+		}
+	}
+	return ""
 }
 
 var c19ShapeNames = []string{"add-bound", "add-unbound-then-update-bound", "add-early-then-object-then-resync"}
